@@ -489,11 +489,12 @@ def strip_attr_edits(src):
 
 
 def split_format_literal(lit):
-    """pieces of a format-string literal token around `{}` placeholders (as Rust literal texts), or None when the literal uses
-    anything but positional `{}` (named / formatted placeholders are not rewritten: the site stays unsupported)"""
+    """-> (pieces, holes) for a format-string literal token: pieces are the literal texts around the placeholders, holes[i] is None for a
+    positional `{}` or the identifier of an inline / named argument `{name}`.  None when the literal uses anything else (`{:?}`, `{0}`,
+    width / precision ...): such a site is not rewritten."""
     if not (lit.startswith('"') and lit.endswith('"')):
         return None
-    body, pieces, cur, i = lit[1:-1], [], '', 0
+    body, pieces, holes, cur, i = lit[1:-1], [], [], '', 0
     while i < len(body):
         ch = body[i]
         if ch == '\\':
@@ -501,16 +502,24 @@ def split_format_literal(lit):
         if ch == '{':
             if body[i:i + 2] == '{{':
                 cur += '{'; i += 2; continue
-            if body[i:i + 2] == '{}':
-                pieces.append(cur); cur = ''; i += 2; continue
-            return None
+            j = body.find('}', i)
+            if j < 0:
+                return None
+            inner = body[i + 1:j]
+            if inner == '':
+                holes.append(None)
+            elif re.fullmatch(r'[A-Za-z_][A-Za-z0-9_]*', inner):
+                holes.append(inner)
+            else:
+                return None
+            pieces.append(cur); cur = ''; i = j + 1; continue
         if ch == '}':
             if body[i:i + 2] == '}}':
                 cur += '}'; i += 2; continue
             return None
         cur += ch; i += 1
     pieces.append(cur)
-    return pieces
+    return pieces, holes
 
 
 def _free_standing(st, k):
@@ -538,9 +547,10 @@ def auto_ops(c, rules, prefix):
                 close = match_close(st, k + 2)
                 name = 'fmt_%s_%d' % (prefix, ordinal)
                 ordinal += 1
-                pieces = split_format_literal(st[k + 3])
-                if pieces is None:
-                    continue   # left as is: Verus will report the macro as unsupported (undecided, never an alarm)
+                parsed = split_format_literal(st[k + 3])
+                if parsed is None:
+                    continue   # left as is: reported as a construct without a usable specification (undecided, never an alarm)
+                pieces, holes = parsed
                 # top-level commas
                 commas, depth = [], 0
                 for j in range(k + 3, close):
@@ -553,17 +563,40 @@ def auto_ops(c, rules, prefix):
                         commas.append(j)
                 trailing = bool(commas) and commas[-1] == close - 1
                 seps = commas[:-1] if trailing else commas
-                nargs = len(seps)
-                if nargs != len(pieces) - 1:
+                # argument token ranges [a, b)
+                bounds = seps + [commas[-1] if trailing else close]
+                args = [(seps[i] + 1, bounds[i + 1]) for i in range(len(seps))]
+                named = {}
+                positional = []
+                for (a, b) in args:
+                    if b - a >= 3 and st[a + 1] == '=' and st[a + 2] != '=' and re.fullmatch(r'[A-Za-z_][A-Za-z0-9_]*', st[a]):
+                        named[st[a]] = (a + 2, b)
+                    else:
+                        positional.append((a, b))
+                if len(positional) != sum(1 for h in holes if h is None):
                     continue
-                site = {'name': name, 'pieces': pieces, 'nargs': nargs, 'literal': st[k + 3]}
-                if nargs == 0:
-                    out.append((sig[k][1], sig[close][2], 'rep', '%s()' % name, {'tag': 'T14', 'fmt_site': site}))
-                    continue
-                out.append((sig[k][1], sig[seps[0]][2], 'rep', '%s(&(' % name, {'tag': 'T14', 'fmt_site': site}))
-                for j in seps[1:]:
-                    out.append((sig[j][1], sig[j][2], 'rep', '), &(', {'tag': 'T14'}))
-                out.append((sig[commas[-1]][1] if trailing else sig[close][1], sig[close][2], 'rep', '))', {'tag': 'T14'}))
+                # the call's arguments in placeholder order, as source text of the CURRENT file
+                texts, pi = [], 0
+                for h in holes:
+                    if h is None:
+                        a, b = positional[pi]; pi += 1
+                        texts.append(c.text[sig[a][1]:sig[b - 1][2]])
+                    elif h in named:
+                        a, b = named[h]
+                        texts.append(c.text[sig[a][1]:sig[b - 1][2]])
+                    else:
+                        texts.append(h)     # inline captured variable
+                site = {'name': name, 'pieces': pieces, 'nargs': len(holes), 'literal': st[k + 3]}
+                simple = all(h is None for h in holes) and not named
+                if simple and holes:
+                    # keep every argument expression in place: only the macro head, the separators and the closing parenthesis change
+                    out.append((sig[k][1], sig[seps[0]][2], 'rep', '%s(&(' % name, {'tag': 'T14', 'fmt_site': site}))
+                    for j in seps[1:]:
+                        out.append((sig[j][1], sig[j][2], 'rep', '), &(', {'tag': 'T14'}))
+                    out.append((sig[commas[-1]][1] if trailing else sig[close][1], sig[close][2], 'rep', '))', {'tag': 'T14'}))
+                else:
+                    # inline / named arguments (or none): the whole macro call is replaced by the call with the arguments in placeholder order
+                    out.append((sig[k][1], sig[close][2], 'rep', '%s(%s)' % (name, ', '.join('&(%s)' % t for t in texts)), {'tag': 'T14', 'fmt_site': site}))
     for rule in rules:
         # ('tok', 'a.b()', 'f(a)', tag): every occurrence of the token sequence in the current text is rewritten (current-anchored,
         # so that deleting or duplicating an occurrence does not lose an anchor)
@@ -574,9 +607,21 @@ def auto_ops(c, rules, prefix):
                 if st[k:k + n] == pat and _free_standing(st, k):
                     out.append((sig[k][1], sig[k + n - 1][2], 'rep', rule[2], {'tag': rule[3] if len(rule) > 3 else 'T15'}))
     if 'strlit' in rules:
+        # T15: String construction from a literal or a named value: X.into() / X.to_string() / X.to_owned() / String::from(X), X a string literal
+        # or an identifier -> txt_into(X) (contract: the same text; the argument must be str / String / a reference to one, else rustc rejects
+        # the generated unit: undecided)
+        taken = [(a, b) for (a, b, _, _, _) in out]
+        ident = re.compile(r'[A-Za-z_][A-Za-z0-9_]*$')
         for k in range(len(st) - 4):
-            if st[k].startswith('"') and st[k + 1] == '.' and st[k + 2] in ('into', 'to_string', 'to_owned') and st[k + 3] == '(' and st[k + 4] == ')':
-                out.append((sig[k][1], sig[k + 4][2], 'rep', 'str_into(%s)' % st[k], {'tag': 'T15'}))
+            x = st[k]
+            if (x.startswith('"') or (ident.match(x) and x not in ('self', 'Self', 'super', 'crate') and _free_standing(st, k))) \
+                    and st[k + 1] == '.' and st[k + 2] in ('into', 'to_string', 'to_owned') and st[k + 3] == '(' and st[k + 4] == ')':
+                a, b = sig[k][1], sig[k + 4][2]
+                if not any(a < tb and ta < b for (ta, tb) in taken):
+                    out.append((a, b, 'rep', 'txt_into(%s)' % x, {'tag': 'T15'}))
+            if x == 'String' and st[k + 1] == ':' and st[k + 2] == ':' and st[k + 3] == 'from' and st[k + 4] == '(' and k + 6 < len(st) and st[k + 6] == ')' \
+                    and (st[k + 5].startswith('"') or ident.match(st[k + 5])):
+                out.append((sig[k][1], sig[k + 6][2], 'rep', 'txt_into(%s)' % st[k + 5], {'tag': 'T15'}))
     return out
 
 
